@@ -1,4 +1,46 @@
-/-! Line protocol handler for the `eqv` domain (stub until the model exists). -/
+import OFCore.Equivariance
+import OFCore.Drv.Sim
+/-!
+Line protocol for the `eqv` domain (C11): one merged population plus selections, one line.
+
+```
+eqv <case as in the `sim` protocol: P … G … M … MSL … V … I … R …>
+    S <k> { <n> <person index …> <m> <group index …> }
+```
+The case is the MERGED simulation.  Every selection `(sel, gsel)` names a part (one of the
+situations, in merged order; or a reordering of the whole population; or a reordered part).
+Answer: `<results of the merged simulation>~<results of part 1 simulated alone>~…`, each a
+`;`-separated list with one entry per request, as in the `sim` protocol (`ok:<v,…>` | `CYCLE` |
+`ERR` | `FUEL` | `-`, `#STATE` appended when the stack or the invalidated set is left non-empty).
+The part simulated alone is `restrict decl sel gsel` run by the same machine on the same requests.
+A selection that is not closed (a kept household names a person that is not kept, or conversely)
+is not a situation: its answer is `ERR`.  `BAD` for a malformed line.
+-/
 namespace OFCore.Drv
-def handleEqv (_args : List String) : String := "BAD"
+open OFCore OFCore.Engine OFCore.RuleSys OFCore.Equivariance
+
+def pSel : Parser (List Nat × List Nat) := fun ts => do
+  let (n, ts) ← pNat ts
+  let (sel, ts) ← pMany pNat n ts
+  let (m, ts) ← pNat ts
+  let (gsel, ts) ← pMany pNat m ts
+  pure ((sel, gsel), ts)
+
+/-- the per-request results of a case (the cache listing after `|` is not part of this protocol) -/
+def resultsOf (c : SimCase) : String := ((runCase c).splitOn "|").headD ""
+
+def partAnswer (c : SimCase) (s : List Nat × List Nat) : String :=
+  if decide (Closed c.decl s.1 s.2) then resultsOf { c with decl := restrict c.decl s.1 s.2 } else "ERR"
+
+def handleEqv (args : List String) : String :=
+  match pCase args with
+  | some (c, "S" :: rest) =>
+    match pNat rest with
+    | some (k, rest) =>
+      match pMany pSel k rest with
+      | some (sels, []) => "~".intercalate (resultsOf c :: sels.map (partAnswer c))
+      | _ => "BAD"
+    | none => "BAD"
+  | _ => "BAD"
+
 end OFCore.Drv
